@@ -1,9 +1,9 @@
 (* C10 — shared codecs and schema caches are safe for concurrent use.
    Only statements, closed by [exact lemma], with Print Assumptions beneath. *)
 From Coq Require Import String List NArith Bool.
-From J5V.model Require Import Conc ConcSites ConcCorr ConcRace ConcStatement.
-From J5V.gen Require ConcGen.
-From J5V.proofs Require Import ConcProofs ConcInvProofs ConcTermProofs ConcMainProofs ConcRaceProofs ConcFullProofs.
+From J5V.model Require Import Conc ConcSites ConcCorr ConcRace ConcStatement ConcState.
+From J5V.gen Require ConcGen ConcStateGen.
+From J5V.proofs Require Import ConcProofs ConcInvProofs ConcTermProofs ConcMainProofs ConcRetProofs ConcRaceProofs ConcFullProofs.
 Import ListNotations.
 Local Open Scope N_scope.
 
@@ -16,6 +16,19 @@ Theorem C10_sites_guarded : forallb (site_guarded ConcGen.cache_methods) ConcGen
 Proof. exact sites_all_guarded. Qed.
 Print Assumptions C10_sites_guarded.
 
+(* the call-graph search behind site_guarded runs on fuel (= the length of the table): it did
+   not run out on the regenerated table; running out is the explicit answer RsOutOfFuel,
+   which site_guarded counts as not guarded (never as "touches no shared state") *)
+Theorem C10_reach_fuel_sufficient : reach_fuel_ok ConcGen.cache_methods = true.
+Proof. exact reach_fuel_sufficient. Qed.
+Print Assumptions C10_reach_fuel_sufficient.
+
+Example C10_reach_out_of_fuel_example :
+  reaches_shared 1 deep_table ["A"%string] ["call:b"%string] = RsOutOfFuel /\
+  reaches_shared (reach_fuel deep_table) deep_table ["A"%string] ["call:b"%string] = RsYes /\
+  site_guarded deep_table ("A"%string, true, ["call:b"%string]) = false.
+Proof. exact reaches_shared_out_of_fuel. Qed.
+
 Theorem C10_cache_methods_agree : ConcGen.cache_methods = expected_cache_methods.
 Proof. exact cache_methods_agree. Qed.
 Print Assumptions C10_cache_methods_agree.
@@ -24,21 +37,48 @@ Theorem C10_placeholder_functions_agree : ConcGen.placeholder_functions = expect
 Proof. exact placeholder_functions_agree. Qed.
 Print Assumptions C10_placeholder_functions_agree.
 
-(* the cache is the only mutable state on the encode/decode path *)
+(* the cache is the only mutable state a codec call can reach.  Not a list of known names:
+   harness/cmd/gen_conc/state.go type-checks lib/j5codec, internal/codec, lib/j5reflect,
+   lib/j5schema and every hand-written package of the module they import (go/types), and
+   reports every package-level variable, every type reachable from one or from codec.Codec,
+   every field of those, the functions a codec call runs outside / inside
+   SchemaCache.Schema, and EVERY write to a variable, to a field of a reachable type (any
+   base expression), through a pointer or to an element of a non-fresh map/slice.
+   census_ok (model/ConcState.v) = the conjunction of the checks named below. *)
 Theorem C10_no_other_state :
-  (ConcGen.cache_fields = expected_cache_fields /\
-   ConcGen.reflector_fields = expected_reflector_fields /\
-   ConcGen.codec_fields = expected_codec_fields) /\
-  (ConcGen.codec_pkg_vars = expected_codec_pkg_vars /\
-   ConcGen.reflect_pkg_vars = expected_reflect_pkg_vars /\
-   ConcGen.schema_pkg_vars = expected_schema_pkg_vars /\
-   ConcGen.codec_pkg_var_writers = [] /\ ConcGen.reflect_pkg_var_writers = [] /\ ConcGen.schema_pkg_var_writers = []) /\
-  (only_calls ConcGen.reflector_methods = true /\ ConcGen.reflector_package_vars = []) /\
-  (only_calls ConcGen.codec_methods = true /\ ConcGen.codec_package_vars = ["Global"%string]) /\
-  ConcGen.codec_entry_points = expected_codec_entry_points /\
-  ConcGen.schema_writers = expected_schema_writers.
+  census_ok = true /\ ConcGen.codec_entry_points = expected_codec_entry_points.
 Proof. exact no_other_state. Qed.
 Print Assumptions C10_no_other_state.
+
+(* the load-bearing check by name, in the direction one uses it: a function that a codec call
+   can run without holding sc.mu writes nothing but a caller's scalar buffer or a protobuf
+   message it is constructing *)
+Theorem C10_lockfree_functions_write_nothing : forall w,
+  In w ConcStateGen.state_writes -> In (w_fn w) ConcStateGen.lockfree_fns ->
+  is_benign_target (w_target w) = true.
+Proof. exact lf_function_writes_nothing. Qed.
+Print Assumptions C10_lockfree_functions_write_nothing.
+
+Theorem C10_census_parts :
+  vars_only_initialised ConcStateGen.state_writes = true /\
+  lf_reads_no_locked_field ConcStateGen.lf_read_fields = true /\
+  holders_hold_only_the_cache ConcStateGen.shared_fields = true /\
+  lk_writes_to_fresh ConcStateGen.lk_field_writes = true.
+Proof. exact (conj census_vars_only_initialised (conj census_lf_reads_no_locked_field (conj census_holders census_lk_writes_to_fresh))). Qed.
+Print Assumptions C10_census_parts.
+
+(* the checks discriminate: a memo map in the Reflector filled by NewRoot (directly or through
+   a local alias), a package-level cache filled inside Schema, a new mutable field on a
+   long-lived object, a per-call type becoming reachable from one, a locked function that
+   modifies a schema object it found in the cache — each is rejected *)
+Example C10_census_rejects_regressions :
+  lf_writes_nothing ConcStateGen.lockfree_fns (memo_write :: ConcStateGen.state_writes) = false /\
+  lf_writes_nothing ConcStateGen.lockfree_fns (memo_alias_write :: ConcStateGen.state_writes) = false /\
+  vars_only_initialised (pkg_cache_write :: ConcStateGen.state_writes) = false /\
+  holders_hold_only_the_cache (("j5reflect.Reflector.rootProps"%string, "map[string]*j5reflect.propSet"%string, true) :: ConcStateGen.shared_fields) = false /\
+  forallb shared_type_ok ("j5reflect.propSet"%string :: ConcStateGen.shared_types) = false /\
+  lk_writes_to_fresh (republish_write :: ConcStateGen.lk_field_writes) = false.
+Proof. exact census_rejects_regressions. Qed.
 
 (* ---- the guarded discipline: for ALL type universes (cyclic or not, with or without
    types that cannot be reflected), ALL lists of calls per thread (on types: calls_ok),
@@ -65,7 +105,32 @@ Theorem C10_guarded_results : forall k g calls sched t, calls_ok calls ->
 Proof. exact guarded_results. Qed.
 Print Assumptions C10_guarded_results.
 
-(* (2a) no deadlock: while a call is outstanding some thread can take a step that changes the state *)
+(* (1') exposed oneofs ((j5.ext.v1.oneof).expose): in the universe handed to the machine a message
+   refers first to its exposed oneofs (leaf nodes: registered before the fields and linked at
+   once, as messageProperties does) and then to all its field types; the grouping of the
+   members under the oneof that a caller sees is the view ConcCorr.view of the machine's
+   result, and the forced schedules compare exactly that view with the reflected schema *)
+Theorem C10_guarded_results_view : forall ex k g calls sched t, calls_ok calls ->
+  exists j, map (view ex k) (nth t (results (run Guarded k g calls sched)) []) =
+            map (fun n => view ex k (result_solo k g n)) (firstn j (nth t calls [])).
+Proof. exact guarded_results_view. Qed.
+Print Assumptions C10_guarded_results_view.
+
+(* message 1 { oneof x0 {expose} { 2 r0; 3 r1 }; 4 r2 }: the machine registers 101 (the oneof), then 2, 3, 4 *)
+Example C10_exposed_oneof_example :
+  let g : graph := [(1, [101; 2; 3; 4]); (101, []); (2, []); (3, []); (4, [1])] in
+  let ex : expo := [(1, [(101, 0, 2)])] in
+  result_solo 3 g 1 = ROk (UNode 1 [UNode 101 []; UNode 2 []; UNode 3 []; UNode 4 [UNode 1 [UCut 101; UCut 2; UCut 3; UCut 4]]]) /\
+  view ex 3 (result_solo 3 g 1) =
+    ROk (UNode 1 [UNode 101 [UNode 2 []; UNode 3 []]; UNode 4 [UNode 1 [UCut 101; UCut 4]]]) /\
+  snd (run_trace Guarded 3 g [[1]] (repeat 0%nat 12)) = [2; 3; 4; 5; 6; 4; 5; 6; 4; 5; 6; 4].
+Proof. cbv zeta. repeat split; vm_compute; reflexivity. Qed.
+
+(* (2a) no deadlock: while a call is outstanding some thread can take a step that changes the
+   state (can_step: it has a call to make and is not blocked in Lock() behind a held lock).
+   The machine's Unlock only frees the lock; who takes it next — the longest waiting
+   goroutine, the latest, a newcomer that never blocked — is the schedule's choice, and
+   the schedule is universally quantified: no lock-grant order is assumed *)
 Theorem C10_guarded_no_deadlock : forall k g calls sched, calls_ok calls ->
   all_done (run Guarded k g calls sched) = false ->
   exists t, (t < length calls)%nat /\ can_step (run Guarded k g calls sched) t /\
@@ -73,15 +138,50 @@ Theorem C10_guarded_no_deadlock : forall k g calls sched, calls_ok calls ->
 Proof. exact guarded_progress. Qed.
 Print Assumptions C10_guarded_no_deadlock.
 
-(* (2b) every fair schedule (rounds in each of which every thread is scheduled at least
-   once) of fuel_bound = B + (3 + B) * |calls| rounds, B = the sum over the universe of
-   (2*|refs|+3), completes every call, each with its solo result *)
+(* (2b) scheduler assumption, stated explicitly: WEAK FAIRNESS — the schedule is a sequence
+   of rounds in each of which every thread is scheduled at least once (weakly_fair).  Under
+   it, and under NO assumption on the lock-grant order, fuel_bound = B + (4 + B) * |calls|
+   rounds, B = the sum over the universe of (2*|refs|+3), complete every call, each with
+   its solo result.  (A single thread may lose the race for the lock again and again; as
+   every thread has finitely many calls, each round still retires at least one unit of
+   the global measure mu.) *)
 Theorem C10_guarded_fair_complete : forall k g calls rounds, calls_ok calls ->
-  Forall (covers (length calls)) rounds -> (fuel_bound g calls <= length rounds)%nat ->
+  weakly_fair (length calls) rounds -> (fuel_bound g calls <= length rounds)%nat ->
   all_done (run Guarded k g calls (concat rounds)) = true /\
   results (run Guarded k g calls (concat rounds)) = map (map (result_solo k g)) calls.
 Proof. exact guarded_fair_complete. Qed.
 Print Assumptions C10_guarded_fair_complete.
+
+(* (2c) mutexes that hand the lock over: under ANY grant policy gr (a function from the state
+   after an Unlock to the goroutine that is given the lock at once, or to nobody; fifo_grant
+   = first come first served is the policy the harness's forced schedules exhibit and the
+   correspondence evaluates) every run is a run of the machine above, on the schedule
+   [expand] computes — so results, absence of deadlock and completion under weak fairness
+   hold for every hand-off order as well *)
+Theorem C10_handoff_refines : forall (gr : grant_policy) d k g calls sched,
+  hrun gr d k g calls sched = run d k g calls (expand gr d k g sched (init calls)).
+Proof. exact handoff_refines. Qed.
+Print Assumptions C10_handoff_refines.
+
+Theorem C10_handoff_results : forall (gr : grant_policy) k g calls sched t, calls_ok calls ->
+  exists j, nth t (results (hrun gr Guarded k g calls sched)) [] =
+            map (result_solo k g) (firstn j (nth t calls [])).
+Proof. exact handoff_results. Qed.
+Print Assumptions C10_handoff_results.
+
+Theorem C10_handoff_no_deadlock : forall (gr : grant_policy) k g calls sched, calls_ok calls ->
+  all_done (hrun gr Guarded k g calls sched) = false ->
+  exists t, (t < length calls)%nat /\ can_step (hrun gr Guarded k g calls sched) t /\
+            gstep Guarded k g t (hrun gr Guarded k g calls sched) <> hrun gr Guarded k g calls sched.
+Proof. exact handoff_no_deadlock. Qed.
+Print Assumptions C10_handoff_no_deadlock.
+
+Theorem C10_handoff_fair_complete : forall (gr : grant_policy) k g calls rounds, calls_ok calls ->
+  weakly_fair (length calls) rounds -> (fuel_bound g calls <= length rounds)%nat ->
+  all_done (hrun gr Guarded k g calls (concat rounds)) = true /\
+  results (hrun gr Guarded k g calls (concat rounds)) = map (map (result_solo k g)) calls.
+Proof. exact handoff_fair_complete. Qed.
+Print Assumptions C10_handoff_fair_complete.
 
 (* (3) whenever the lock is free every cache entry is fully linked, denotes its type, and
    is a type that reflects: no placeholder with To == nil, and nothing that a failed call
@@ -95,6 +195,50 @@ Theorem C10_guarded_linked_when_free : forall k g calls sched, calls_ok calls ->
     good g n.
 Proof. exact guarded_linked_when_free. Qed.
 Print Assumptions C10_guarded_linked_when_free.
+
+(* (4) WHICH object a call is handed, beyond its shape.  rets = the list (thread, type, cell) of
+   the RefSchema cells whose To the successful calls of a run returned, in order of
+   completion (the Go pointer `built.To` / `placeholder.To`; the harness compares pointer
+   identity within each forced case with cell identity in the model).
+   (4a) one canonical object per type: any two calls on the same type, by whatever threads and
+   however far apart, are handed the same cell *)
+Theorem C10_guarded_canonical_object : forall k g calls sched t1 t2 n c1 c2, calls_ok calls ->
+  In (t1, n, c1) (rets Guarded k g calls sched) -> In (t2, n, c2) (rets Guarded k g calls sched) -> c1 = c2.
+Proof. exact guarded_ret_canonical. Qed.
+Print Assumptions C10_guarded_canonical_object.
+
+(* (4b) the object handed out is completely linked — it unfolds to its type at EVERY depth d, not
+   only the depth k of the recorded result — at the moment it is handed out and at every
+   later point of the run, including the middle of another thread's build or roll-back:
+   immutable after publication *)
+Theorem C10_guarded_object_linked_for_good : forall k g calls sched t n c, calls_ok calls ->
+  In (t, n, c) (rets Guarded k g calls sched) ->
+  forall later d, unfold d (heap (s_sh (run Guarded k g calls (sched ++ later)))) c = gunfold d g n.
+Proof. exact guarded_ret_linked. Qed.
+Print Assumptions C10_guarded_object_linked_for_good.
+
+(* the list is about the recorded results: the step that hands cell c to thread t records the
+   unfolding of c as the result of t's current call *)
+Theorem C10_ret_is_result : forall k g t st t' n c,
+  gstep_ret k g t st = Some (t', n, c) ->
+  exists th rest, nth_error (s_thr st) t = Some th /\ t_calls th = n :: rest /\ t' = t /\
+    snd (lstep k g n (s_sh st) (t_pc th)) = inr (ROk (unfold k (heap (s_sh st)) c)).
+Proof. exact ret_is_result. Qed.
+Print Assumptions C10_ret_is_result.
+
+(* non-vacuity, and what shape alone does not see: under the lock three calls on types 1 and 3
+   by three threads share cells; WITHOUT the lock there is a schedule on which two calls on
+   type 1 both return exactly the solo shape and yet are handed two different objects
+   (both missed the lookup, both inserted) *)
+Example C10_objects_example :
+  let g : graph := [(1, [2]); (2, [1; 3]); (3, []); (4, [3; 5; 1]); (5, [unsupported])] in
+  rets Guarded 2 g [[1; 4]; [4; 2]; [3; 1]] (concat (repeat [2; 0; 1; 1]%nat 60)) =
+    [(2%nat, 3, 0%nat); (0%nat, 1, 1%nat); (2%nat, 1, 1%nat); (1%nat, 2, 2%nat)] /\
+  let g2 : graph := [(1, [2]); (2, [])] in
+  let sched := [0; 0; 1; 1; 1; 1; 1; 1; 1; 0; 0; 0; 0; 0; 0; 0]%nat in
+  results (run Unguarded 3 g2 [[1]; [1]] sched) = [[result_solo 3 g2 1]; [result_solo 3 g2 1]] /\
+  rets Unguarded 3 g2 [[1]; [1]] sched = [(1%nat, 1, 0%nat); (0%nat, 1, 2%nat)].
+Proof. cbv zeta. repeat split; vm_compute; reflexivity. Qed.
 
 (* mutual exclusion of the section between cache.lookup and the return *)
 Theorem C10_guarded_mutex : forall k g calls sched t1 t2 th1 th2, calls_ok calls ->
@@ -110,7 +254,7 @@ Example C10_guarded_example :
   let g : graph := [(1, [2]); (2, [1; 3]); (3, []); (4, [3; 5; 1]); (5, [unsupported])] in
   let calls : list (list name) := [[1; 4]; [4; 2]; [3; 1]] in
   let rounds := repeat [2; 0; 1; 1]%nat (fuel_bound g calls) in
-  calls_ok calls /\ Forall (covers (length calls)) rounds /\ fuel_bound g calls = 242%nat /\
+  calls_ok calls /\ weakly_fair (length calls) rounds /\ fuel_bound g calls = 248%nat /\
   results (run Guarded 2 g calls (concat rounds)) =
     [[ROk (UNode 1 [UNode 2 [UCut 1; UCut 3]]); RErr];
      [RErr; ROk (UNode 2 [UNode 1 [UCut 2]; UNode 3 []])];
@@ -118,9 +262,18 @@ Example C10_guarded_example :
   (* after the failed call of thread 1 the cache holds nothing *)
   cmap (s_sh (run Guarded 2 g [[4]] (repeat 0%nat 20))) = [] /\
   (* a schedule on which thread 1 has to wait for the lock *)
-  snd (run_trace Guarded 2 g calls [0; 0; 1; 1; 2; 0]%nat) = [2; 3; 1; 1; 1; 4].
+  snd (run_trace Guarded 2 g calls [0; 0; 1; 1; 2; 0]%nat) = [2; 3; 1; 1; 1; 4] /\
+  (* lock-grant orders: threads 1 and 2 block behind thread 0 (1 first); when thread 0 returns,
+     the machine lets thread 2 (the later arrival) take the free lock, or thread 0 barge in
+     again with its next call while both still wait; first-come-first-served hand-off gives it to 1 *)
+  snd (run_trace Guarded 2 g calls [0; 1; 2; 0; 0; 0; 0; 0; 0; 0; 0; 0; 0; 2; 1]%nat) =
+    [2; 1; 1; 3; 4; 5; 4; 4; 5; 6; 6; 7; 0; 2; 1] /\
+  snd (run_trace Guarded 2 g calls [0; 1; 2; 0; 0; 0; 0; 0; 0; 0; 0; 0; 0; 0; 1; 2]%nat) =
+    [2; 1; 1; 3; 4; 5; 4; 4; 5; 6; 6; 7; 0; 2; 1; 1] /\
+  snd (hrun_trace fifo_grant Guarded 2 g calls [0; 1; 2; 0; 0; 0; 0; 0; 0; 0; 0; 0; 0; 2; 1]%nat) =
+    [2; 1; 1; 3; 4; 5; 4; 4; 5; 6; 6; 7; 0; 1; 3].
 Proof.
-  cbv zeta. split; [|split; [|split; [|split; [|split]]]]; try (vm_compute; reflexivity).
+  cbv zeta. split; [|split; [|split; [|split; [|split; [|split; [|split; [|split]]]]]]]; try (vm_compute; reflexivity).
   - intros t n Hin. destruct t as [|[|[|t]]]; cbn in Hin.
     + destruct Hin as [<-|[<-|[]]]; discriminate.
     + destruct Hin as [<-|[<-|[]]]; discriminate.
@@ -147,6 +300,37 @@ Theorem C10_memory_guarded_partial : C10_memory_statement Guarded.
 Proof. exact memory_guarded. Qed.
 Print Assumptions C10_memory_guarded_partial.
 
+(* "runtime crashes": Go aborts with "fatal error: concurrent map writes / concurrent map read
+   and map write" when two goroutines access one map, one of them writing, unordered.  No
+   guarded run meets that condition on sc.packages or on any Schemas map; without the lock the
+   model meets it (thread 0 inserts into a Schemas map while thread 1 reads it).  PARTIAL in the
+   same sense as the theorem above: about the model's events *)
+Theorem C10_guarded_no_concurrent_map_access_partial : forall pk k g calls sched, calls_ok calls ->
+  ~ concurrent_map_access (events Guarded pk k g calls sched).
+Proof. exact guarded_no_concurrent_map_access. Qed.
+Print Assumptions C10_guarded_no_concurrent_map_access_partial.
+
+Theorem C10_unguarded_concurrent_map_access :
+  concurrent_map_access (events Unguarded (fun _ => 0) 3 [(1, [2]); (2, [])] [[1]; [1]] [0; 0; 0; 1; 1]%nat).
+Proof. exact unguarded_concurrent_map_access. Qed.
+Print Assumptions C10_unguarded_concurrent_map_access.
+
+(* the locations of the statement: sc.packages and the Schemas map of each package are
+   distinct (pk assigns type names to packages; here odd / even names), registered, and one
+   To per RefSchema.  Two threads that work on different packages touch different Schemas
+   maps but the same sc.packages and registered: without the lock the first race of the run
+   below is on registered (positions 0 / 6); with the lock there is none *)
+Example C10_memory_example :
+  let pk : name -> N := fun n => N.modulo n 2 in
+  let g : graph := [(1, [3]); (3, []); (2, [4]); (4, [])] in
+  let sched := [0; 0; 0; 1; 1; 1; 0; 1; 0; 1; 0; 1; 0; 1; 0; 1]%nat in
+  first_race (events Unguarded pk 2 g [[1]; [2]] sched) = Some (0, 6)%nat /\
+  first_race (events Guarded pk 2 g [[1]; [2]] sched) = None /\
+  firstn 9 (events Guarded pk 2 g [[1]; [2]] sched) =
+    [EAcq 0; EWr 0 LReg; ERd 0 LPkgs; EWr 0 LPkgs; ERd 0 (LSchemas 1); EWr 0 (LSchemas 1); EWr 0 LReg;
+     ERd 0 LPkgs; EWr 0 LPkgs]%nat.
+Proof. cbv zeta. repeat split; vm_compute; reflexivity. Qed.
+
 (* the full statement holds of the guarded discipline, which is the one the code follows *)
 Theorem C10_full_for_code : C10_full_statement code_disc.
 Proof. exact full_for_code. Qed.
@@ -159,7 +343,7 @@ Print Assumptions C10_full_unguarded_refuted.
 
 (* ---- without the lock the property fails ----------------------------------- *)
 Theorem C10_unguarded_refuted :
-  nth 1%nat (results (run Unguarded 3 w1_graph w1_calls w1_sched)) [] = [RErr] /\
+  nth 1%nat (results (run Unguarded 3 w1_graph w1_calls w1_sched)) [] = [RUnlinked] /\
   result_solo 3 w1_graph 1 = ROk (UNode 1 [UNode 2 []]) /\
   results (run Unguarded 3 w1_graph [[1]] [0; 0; 0; 0; 0; 0; 0]%nat) = [[result_solo 3 w1_graph 1]].
 Proof. exact unguarded_refuted_root. Qed.
